@@ -195,7 +195,11 @@ func (vo *validatorOracle) refRelevant(m *gpbft.GMessage, cur gpbft.InstanceProg
 		if cur.Phase == gpbft.DECIDE_PHASE && m.Vote.Phase != gpbft.DECIDE_PHASE {
 			return false
 		}
-		return m.Vote.Phase == gpbft.QUALITY_PHASE || m.Vote.Phase == gpbft.DECIDE_PHASE || m.Vote.Round+1 >= cur.Round
+		round := cur.Round
+		if cur.Phase == gpbft.INITIAL_PHASE {
+			round = 0 // an instance that has not begun is in round 0, whatever round the previous one ended in
+		}
+		return m.Vote.Phase == gpbft.QUALITY_PHASE || m.Vote.Phase == gpbft.DECIDE_PHASE || m.Vote.Round+1 >= round
 	}
 	return false
 }
